@@ -66,9 +66,9 @@ PROPS['C03'] = dict(
     assumptions=[EXACT, SAN],
 )
 PROPS['C04'] = dict(
-    units=[dict(target=T('h_prim', parts=4), quick=dict(scale=1.0), thorough=dict(scale=6.0, shards=16))],
+    units=[dict(target=T('h_prim', parts=5), quick=dict(scale=1.0), thorough=dict(scale=6.0, shards=16))],
     rule=('full template matrix Dx<n> n=0..5 x order 0..5, X<n> n=0..5 x order 0..4, identity x order 0..5 (per-combination counters in per_subcheck.classes), random grids incl. far from origin, '
-          'all window kinds, Q (all) and double / long double (n <= 3, dyadic inputs for which the operation is exact). Oracle: n-fold derivative / multiplication by x^n of the absolute-basis model, result order, same window, '
+          'all window kinds, Q (all), double / long double (n <= 3, dyadic inputs for which the operation is exact) and the integer-like scalar `long` (n <= 3, integer grid points of equal parity and integer coefficients, so every quantity the library forms is an integer). Oracle: n-fold derivative / multiplication by x^n of the absolute-basis model, result order, same window, '
           'zero outside the operand, identity == operand. Non-trivial: non-zero function and (n >= order-1, or |x| > 4, or strict sub-window, or n >= 2 for X).'),
     technique='rapidcheck generation over the (n, order) template matrix against exact polynomial calculus in the absolute basis',
     level_text='Exact generated-input search over every compiled (n, order) instantiation; sampling of coefficients/grids, not proof; template parameters limited to the compiled matrix.',
@@ -438,7 +438,7 @@ def _c19_units():
     us = [dict(target=T('h_archetype', deps=['harness/common/qsolver.h']), quick=dict(args=a(), scale=1.0), thorough=dict(args=a(), scale=6.0, shards=4)),
           dict(target=T('h_gen', parts=4), quick=dict(args=a('--prefix', 'exact'), scale=0.25), thorough=dict(args=a('--prefix', 'exact'), scale=1.0, shards=4)),
           dict(target=T('h_arith', parts=3), quick=dict(args=a(), scale=0.2), thorough=dict(args=a(), scale=1.0, shards=4)),
-          dict(target=T('h_prim', parts=4), quick=dict(args=a(), scale=0.25), thorough=dict(args=a(), scale=1.0, shards=4)),
+          dict(target=T('h_prim', parts=5), quick=dict(args=a(), scale=0.25), thorough=dict(args=a(), scale=1.0, shards=4)),
           dict(target=T('h_interp', parts=3), quick=dict(args=a('--prefix', 'exact-solver'), scale=0.3), thorough=dict(args=a('--prefix', 'exact-solver'), scale=1.0, shards=4))]
     for k in (0, 1, 2):
         t = T('cat_%02d' % k, src=['harness/expr_catalog/cat_%02d.cpp' % k], deps=['harness/expr_common.h'])
@@ -466,7 +466,7 @@ PROPS['C19'] = dict(
 
 PROPS['C18'] = dict(
     confirm_any=True,  # schedules are not reproducible: a replay runs the workload 20 times, one failing replay confirms
-    units=[dict(target=T('h_threads', kind='tsan'), quick=dict(args=['--repeats', '3'], scale=0.6, shards=6), thorough=dict(args=['--repeats', '5'], scale=3.0, shards=16))],
+    units=[dict(target=T('h_threads', kind='tsan'), quick=dict(args=['--repeats', '3'], scale=0.6, shards=6, timeout=600), thorough=dict(args=['--repeats', '5'], scale=3.0, shards=16, timeout=3600))],
     rule=('generated multi-thread workloads: a shared CONST pool (one grid, 3..6 windows each materialised as splines of orders 0..3, their supports, a BSplineGenerator, two compound operator expressions, a SplineOperator, LinearForm, BilinearForm, ScalarProduct objects) + per-thread op lists (4..24 ops from 16 kinds: evaluate, copy+destroy, copy-assign, a+b, a-b, a*b, '
           'apply shared operator, apply shared spline operator, linear form, bilinear form (incl. copying a shared SplineOperator), generateBSplines on the shared generator, predicates, linearCombination over the shared vector, support union/intersection/copy, numerical integration, grid copy, mixing shared splines (as LEFT operand) with splines on a logically equal grid held in a distinct object, mixing them with splines of a generator each thread builds itself from the same points, operator / quadrature template instances the tests never use: X<4..6>, Dx<3>, Dx<5>, integrate<2>, integrate<5>) for 2/3/4/8/16 threads with generated yield/spin patterns; all threads start behind one barrier; every workload is executed 3 (quick) or 5 (thorough) times, threads FIRST and the sequential reference afterwards (a sequential warm-up would hide lazily initialised state); every process (6 in quick, 16 in thorough) begins with a cold-start workload in which four threads run every op kind at once. '
           'Oracle: ThreadSanitizer with halt_on_error (any report is a violation) and bitwise equality of every thread\'s result vector with a sequential run of the same op list. Non-trivial: >= 2 threads and >= 4 ops. Distinct = distinct workload text.'),
